@@ -49,6 +49,7 @@ TABLE: List[Entry] = [
     # announcing the moved bounds is about what propagation sees (C02/C09, and through them C01/C08), not about termination
     ("R-BRANCH-EVENTS", None, None, {"C01", "C02", "C08", "C09"}),
     # strict shrink of every sub-range is the progress measure of the search tree
+    ("R-PARTITION", None, "store-level:dom_update", {"C02", "C09"}),  # where the replay record is written is not a progress matter
     ("R-PARTITION", None, None, {"C02", "C04", "C09"}),
     # ---- choice-point stack: C07 is only concerned with the enabled-flags half
     ("R-PUSH-POP", None, "copy-flags", {"C02", "C07", "C09"}),
